@@ -178,7 +178,7 @@ def judge(ctx, uname, traces, verdicts, stats, focus):
                           '%s %r: %s (exc=%s %s)' % (s['op'], s['a'], clause, s['obs']['exc'], s['obs'].get('msg', '')), rp)
 
 
-def run(ctx, prop, mc, focus, shaping, sim_len=30, extra_paths=None, extra_universe='mc3'):
+def run(ctx, prop, mc, focus, shaping, sim_len=30, extra_paths=None, extra_universe='mc3', extra_focus=()):
     """mc: dict(names=..., ops=..., phasesets=..., depth=..., props=[...]); focus: operations this property owns;
     shaping: additional operations used to reach interesting states (violations on them are left to their owner)."""
     rng = random.Random(ctx.seed)
@@ -219,7 +219,8 @@ def run(ctx, prop, mc, focus, shaping, sim_len=30, extra_paths=None, extra_unive
     for un, traces in groups:
         defs, cfgc = ds.tla_constants(ds.UNIVERSES[un])
         v = tlc.validate_traces('Streams', defs, cfgc, traces, procs=16)
-        judge(ctx, un, traces, v, stats, set(focus))
+        directed = bool(traces) and traces[0]['id'].startswith('D')
+        judge(ctx, un, traces, v, stats, set(focus) | (set(extra_focus) if directed else set()))
         n_tr += len(traces)
     sample = groups[2][1][0]
     cov = dict(states=r.distinct, transitions=r.generated, depth=r.depth, traces_validated_against_impl=n_tr,
